@@ -36,6 +36,7 @@ LEVEL_TEXT = (
     "and convergence speed is not addressed."
 )
 LEVEL_TEXT += " Session 3: instances of ploidy 5-6 over three sites (8-12 haplotypes; copy-number patterns whose recombinants differ in their number of options), and the orchestration monitor records EVERY (genotype, temp) kernel of the mutation / structural modules that the sampler loop may call directly, with the callee's defaults applied."
+LEVEL_TEXT += ' Session 4: a long kind - loci of 33-160 SNVs (beyond 32 / 64 / 127 sites), states built from 2-3 founder haplotypes, sampled sub-steps (first / last / random sites, copy-number changing cells) and intervals, the same exact edge identities; the oracle prior works in log space for astronomically many possible haplotypes.'
 LEVEL_NOTE = "Trusts the independent likelihood/prior oracle, and that .py_func bodies equal the compiled code (checked per run by seeded cross-validation of sampled rows against the compiled kernels)."
 RULE = (
     "case = one extracted kernel row (instance, ordered state, move, h/j or interval) or one exchange / orchestration "
